@@ -952,6 +952,9 @@ func (c *fctx) stmts(list []ast.Stmt, k func() string) string {
 		return c.retK(vals)
 	case *ast.DeclStmt:
 		gd, ok := s.Decl.(*ast.GenDecl)
+		if ok && gd.Tok == token.CONST {
+			return next() // local constants are folded by go/types at their uses
+		}
 		if !ok || gd.Tok != token.VAR {
 			c.fail(s.Pos(), "local declaration other than var")
 		}
